@@ -589,7 +589,7 @@ Proof.
   rewrite (run_flags_ext _ _ spec_impl spec_flags f ops init_state) by (cbn; congruence).
   assert (Hg : good f) by (split; assumption).
   apply (run_sim (model_impl f) spec_impl dict_ref visits_ref
-           (ms_empty f) (ms_get f Hg) (ms_set f Hg) (ms_del f Hg) (ms_size f Hg) (ms_visits f Hg)).
+           (ms_empty f) (ms_get f Hg) (ms_set f Hg) (ms_del f Hg) (ms_size f) (ms_visits f)).
   exact init_ref.
 Qed.
 
